@@ -256,10 +256,82 @@ func c05EvalArith(row map[string]any, e *c05Expr) (val any, ok bool) {
 
 // ---- predicates ------------------------------------------------------------------------------
 
-// c05EvalPred decides "true" vs "not true".  The grammar has no NOT, so collapsing UNKNOWN to
-// not-true before AND/OR gives the same decision as three-valued logic.  ok=false: an atom's
+// c05EvalPred decides "true" vs "not true" under SQL three-valued logic (a comparison with a NULL operand is
+// UNKNOWN, NOT UNKNOWN is UNKNOWN, and a row is produced only when the predicate is TRUE).  ok=false: an atom's
 // operand types are outside what the property pins down.
 func c05EvalPred(row map[string]any, p *c05Pred) (truth bool, ok bool) {
+	if !c05HasNot(p) {
+		return c05EvalPred2(row, p)
+	}
+	t, ok := c05Eval3(row, p)
+	return t == 1, ok
+}
+
+func c05HasNot(p *c05Pred) bool {
+	if p == nil {
+		return false
+	}
+	if p.Op == "NOT" {
+		return true
+	}
+	for _, k := range p.Kids {
+		if c05HasNot(k) {
+			return true
+		}
+	}
+	return false
+}
+
+// c05Eval3: 1 TRUE, 0 FALSE, -1 UNKNOWN.
+func c05Eval3(row map[string]any, p *c05Pred) (int, bool) {
+	switch p.Op {
+	case "NOT":
+		t, ok := c05Eval3(row, p.Kids[0])
+		if t >= 0 {
+			t = 1 - t
+		}
+		return t, ok
+	case "AND", "OR":
+		res, allOK := 1, true
+		if p.Op == "OR" {
+			res = 0
+		}
+		unknown := false
+		for _, k := range p.Kids {
+			t, o := c05Eval3(row, k)
+			allOK = allOK && o
+			switch {
+			case t < 0:
+				unknown = true
+			case p.Op == "AND" && t == 0:
+				res = 0
+			case p.Op == "OR" && t == 1:
+				res = 1
+			}
+		}
+		if (p.Op == "AND" && res == 0) || (p.Op == "OR" && res == 1) {
+			return res, allOK
+		}
+		if unknown {
+			return -1, allOK
+		}
+		return res, allOK
+	case "cmp":
+		if p.Pinned {
+			if v, _ := c05Lookup(row, p.Ref); v == nil {
+				return -1, true
+			}
+		}
+	}
+	t, ok := c05EvalPred2(row, p)
+	if t {
+		return 1, ok
+	}
+	return 0, ok
+}
+
+// c05EvalPred2 is the two-valued evaluation (UNKNOWN collapsed to not-true), exact for predicates without NOT.
+func c05EvalPred2(row map[string]any, p *c05Pred) (truth bool, ok bool) {
 	switch p.Op {
 	case "AND":
 		res, allOK := true, true
@@ -358,7 +430,7 @@ func c05Atoms(p *c05Pred, out []*c05Pred) []*c05Pred {
 	if p == nil {
 		return out
 	}
-	if p.Op == "AND" || p.Op == "OR" {
+	if p.Op == "AND" || p.Op == "OR" || p.Op == "NOT" {
 		for _, k := range p.Kids {
 			out = c05Atoms(k, out)
 		}
@@ -374,6 +446,8 @@ func c05EvalPredFlipped(row map[string]any, p, flip *c05Pred) bool {
 		return !t
 	}
 	switch p.Op {
+	case "NOT":
+		return !c05EvalPredFlipped(row, p.Kids[0], flip)
 	case "AND":
 		for _, k := range p.Kids {
 			if !c05EvalPredFlipped(row, k, flip) {
